@@ -386,7 +386,51 @@ theorem transpose_spec (m : V2 α) (r c : Nat) (hm : L.Dims2 m r c) (hr : 0 < r)
           | cons y ys ih => intro k; cases k <;> simp [L.get?, ih]
         exact this _ j
 
+/-! ### the scaled Hadamard product of two 3-D nests (the free function used by the spatial backward passes) -/
+
+/-- **the scaled Hadamard product of two `c × h × w` nests** (`tensor::hadamard3d`, the delta of the spatial layers'
+    backward passes) keeps the extents — whatever `c`, `h`, `w`, equal or not — and is the element-wise `a·b·s` -/
+theorem hadamard3d_spec (a b : V3 α) (s : α) (c h w : Nat) (ha : L.Dims3 a c h w) (hb : L.Dims3 b c h w) :
+    L.Dims3 (Tensor.hadamard3d a b s) c h w ∧
+    ∀ i j k, i < c → j < h → k < w →
+      (((Tensor.hadamard3d a b s).getD i []).getD j []).getD k 0 =
+        (((a.getD i []).getD j []).getD k 0) * (((b.getD i []).getD j []).getD k 0) * s := by
+  obtain ⟨hac, ham⟩ := ha
+  obtain ⟨hbc, hbm⟩ := hb
+  constructor
+  · refine ⟨by simp [Tensor.hadamard3d, hac, hbc], ?_⟩
+    intro m hm
+    simp only [Tensor.hadamard3d] at hm
+    obtain ⟨i, hi, rfl⟩ := List.getElem_of_mem hm
+    simp only [List.length_zipWith] at hi
+    simp only [List.getElem_zipWith]
+    have h1 := ham a[i] (List.getElem_mem _)
+    have h2 := hbm b[i] (List.getElem_mem _)
+    refine ⟨by simp [h1.1, h2.1], ?_⟩
+    intro r hr
+    obtain ⟨j, hj, rfl⟩ := List.getElem_of_mem hr
+    simp only [List.length_zipWith] at hj
+    simp only [List.getElem_zipWith, List.length_zipWith]
+    rw [h1.2 _ (List.getElem_mem _), h2.2 _ (List.getElem_mem _)]
+    simp
+  · intro i j k hi hj hk
+    have hia : i < a.length := by omega
+    have hib : i < b.length := by omega
+    simp only [Tensor.hadamard3d]
+    rw [L.getD_zipWith _ a b i [] [] [] hia hib]
+    have h1 := ham (a.getD i []) (L.getD_mem' _ _ _ hia)
+    have h2 := hbm (b.getD i []) (L.getD_mem' _ _ _ hib)
+    have hja : j < (a.getD i []).length := by omega
+    have hjb : j < (b.getD i []).length := by omega
+    rw [L.getD_zipWith _ _ _ j [] [] [] hja hjb]
+    have h3 := h1.2 ((a.getD i []).getD j []) (L.getD_mem' _ _ _ hja)
+    have h4 := h2.2 ((b.getD i []).getD j []) (L.getD_mem' _ _ _ hjb)
+    rw [L.getD_zipWith _ _ _ k 0 0 0 (by omega) (by omega)]
+
 /-! non-vacuity -/
+example (x : α) : L.Dims3 (L.replicate3 2 3 5 x) 2 3 5 := by
+  simp [L.replicate3, L.replicate2, L.Dims3]
+
 example : (⟨.double 2 2, .double [[(1:Nat), 2], [3, 4]]⟩ : Tensor Nat).Wf := by
   simp [Wf]
 
